@@ -105,6 +105,7 @@ CUSTOM = [
     ("inst-zz", "instance::zz:ia", "iv"),
     ("body-plain", "body::accept", "bv"),
     ("body-zz", "body::zz:b", "bv"),
+    ("entities", "save_to", "p"),  # + an entities sheet: its namespace must be declared next to any custom ones
 ]
 
 
@@ -123,6 +124,8 @@ def gen_settings(tier):
                     # undeclared variants are the 'names' generator's business
                     st2["namespaces"] = 'zz="http://zz.example/ns"'
                 wb = {"survey": [row], "settings": [st2]} if st2 else {"survey": [row]}
+                if tag == "entities":
+                    wb["entities"] = [{"list_name": "trees", "label": "concat(${q}, 'x')"}]
                 meta = {"gen": "settings", "st": sorted(st2), "col": tag}
                 yield {"wb": wb, "meta": meta, "id": st2.get("form_id", "data")}
 
@@ -160,6 +163,24 @@ def gen_names(tier):
         if st:
             wb["settings"] = [dict(st)]
         yield {"wb": wb, "meta": {"gen": "names", "name_channel": tag}, "id": "data"}
+
+
+# characters at the edges of the XML 1.0 (5th edition) NameStartChar / NameChar ranges, inside and just outside
+EDGE_CHARS = ["\xb7", "\xbf", "\xc0", "\xd6", "\xd7", "\xd8", "\xf6", "\xf7", "\xf8", "\u02ff", "\u0300", "\u036f", "\u0370", "\u037d", "\u037e",
+              "\u037f", "\u1fff", "\u2000", "\u200b", "\u200c", "\u200d", "\u200e", "\u203e", "\u203f", "\u2040", "\u2041", "\u206f", "\u2070",
+              "\u218f", "\u2190", "\u2bff", "\u2c00", "\u2fef", "\u2ff0", "\u3000", "\u3001", "\ud7ff", "\uf8ff", "\uf900", "\ufdcf", "\ufdd0",
+              "\ufdef", "\ufdf0", "\ufffd", "\U00010000", "\U000effff", "\U000f0000", "-", ".", "0", ":", "_"]
+
+
+def gen_namechars(tier):
+    """element names (question / group / extra choice column) containing a range-edge character, first or later in the name"""
+    for c in EDGE_CHARS:
+        for nm in (f"a{c}b", f"{c}ab", f"ab{c}"):
+            yield {"wb": {"survey": [{"type": "text", "name": nm, "label": "Q"}]}, "meta": {"gen": "namechars", "ch": "question", "lenient": True, "name_channel": "question-name"}, "id": "data"}
+            yield {"wb": {"survey": [{"type": "begin group", "name": nm, "label": "G"}, {"type": "text", "name": "q", "label": "Q"}, {"type": "end group"}]},
+                   "meta": {"gen": "namechars", "ch": "group", "lenient": True, "name_channel": "group-name"}, "id": "data"}
+            yield {"wb": {"survey": [{"type": "select_one c", "name": "q", "label": "Q"}], "choices": [{"list_name": "c", "name": "x", "label": "X", nm: "v"}]},
+                   "meta": {"gen": "namechars", "ch": "choice-column", "lenient": True, "name_channel": "choice-col-badname"}, "id": "data"}
 
 
 CHANNELS = ["label", "hint", "guidance_hint", "constraint_message", "required_message", "glabel",
@@ -262,7 +283,7 @@ def gen_containers(tier):
 
 SPACE = GenSpace(
     {"names": gen_names, "types": gen_types, "layouts": gen_layouts, "containers": gen_containers,
-     "settings": gen_settings, "text": gen_text},
+     "settings": gen_settings, "text": gen_text, "namechars": gen_namechars},
     chunk=250,
 )
 blocks = SPACE.blocks
@@ -330,6 +351,16 @@ def check_one(case):
         if out.kind != "ok":
             continue
         pr = skeleton_problems(out.xform, case["id"])
+        if pr and meta.get("lenient") and pr[0][0] == "not-wellformed":
+            # expat applies the XML 1.0 4th-edition name rules, pyxform (like libxml2) the 5th edition's: a name
+            # character is only held against the output when the 5th-edition parser refuses the document as well
+            try:
+                import lxml.etree as LE
+
+                LE.fromstring(out.xform.encode("utf-8"))
+                pr = []
+            except LE.XMLSyntaxError:
+                pass
         for kind, detail in pr:
             if meta.get("name_channel") and kind in ("unbound-prefix", "not-wellformed"):
                 sig = f"name-channel:{meta['name_channel']}:{kind}"
